@@ -141,8 +141,8 @@ def unhex(s):
 
 
 def ps(k, *steps):
-    """pathspec: ps(0, 'a/b') = root_0.join('a/b'); a step 'PARENT' is .parent()"""
-    return "%d:%s" % (k, ",".join("p" if s == "PARENT" else "j" + hexs(s) for s in steps))
+    """pathspec: ps(0, 'a/b') = root_0.join('a/b'); a step 'PARENT' is .parent(), 'ROOT' is .root()"""
+    return "%d:%s" % (k, ",".join("p" if s == "PARENT" else "r" if s == "ROOT" else "j" + hexs(s) for s in steps))
 
 
 class Case:
